@@ -246,12 +246,12 @@ def gen_cases(ctx):
                 s.final(rng)
                 cases.append(("exhaustive-len%d" % n, s))
     # (2) random scripts
-    for _ in range(ctx.scale(1200, 6000)):
+    for _ in range(ctx.scale(3000, 12000)):
         mx = rng.choice([0, 1, 1, 2, 2, 3, 3])
         mode = rng.choice(["both"] * 4 + ["http", "ws"])
         cases.append(("random-%s" % mode, random_script(rng, mx, mode, rng.randint(3, 28))))
     # (3) repetition: one exit path cycled
-    reps, cyc = ctx.scale((2, 15), (50, 200))
+    reps, cyc = ctx.scale((4, 25), (64, 200))
     for path in EXIT_PATHS:
         for mx in (1, 2, 3):
             for _ in range(reps if mx < 3 else max(1, reps // 2)):
@@ -395,6 +395,7 @@ def run(ctx):
     ctx.engines = ["connguard (harness/src/bin/connguard.rs over a real Server on loop-back TCP vs modelrun/connguard_driver.ml over coq/Model/ConnGuard.v)"]
     impl, model = vlib.rust_bin("connguard"), vlib.model_bin("connguard")
     cases = gen_cases(ctx)
+    ctx.rng.shuffle(cases)      # long and short scripts evenly over the worker processes
     # a pilot slice first: on a broken server every step runs into its bounded wait, so when the pilot already
     # fails the bulk is not run (the failing inputs are in hand)
     stride = max(1, len(cases) // 160)
